@@ -45,6 +45,9 @@ func genCrash(g *gen, n int, tier string, w *bufio.Writer) {
 		sync := g.pick(0, 1, 2, 2, 2)
 		mem := g.pick(150, 400, 4096, 1<<20)
 		big := (c+c0)%4 == 3 // enough bytes to overflow the 64 KB log buffer
+		if (c+c0)%6 == 5 {
+			sync, mem = g.pick(0, 1), 1<<20
+		}
 		fmt.Fprintf(w, "# case %d\n", c)
 		fmt.Fprintf(w, "cfg sync=%d mem=%d\n", sync, mem)
 		steps := 3 + g.intn(9)
@@ -63,8 +66,31 @@ func genCrash(g *gen, n int, tier string, w *bufio.Writer) {
 			fmt.Fprintln(w, "crashall 5")
 			continue
 		}
+		if (c+c0)%6 == 5 {
+			// straddle: unsynced appends sit in the 64 KB log buffer, then a transaction that does not fit the REMAINING space
+			// (but would fit an empty buffer) is committed: its records must reach the file together or not at all
+			fill := 25000 + g.intn(35000)
+			for fill > 0 {
+				n := 3000 + g.intn(9000)
+				fmt.Fprintln(w, join("w", "put", hx(g.engKey()), hx(g.bytesN(n))))
+				fill -= n
+			}
+			m := 3 + g.intn(6)
+			parts := []string{"w", "tx", strconv.Itoa(m)}
+			for i := 0; i < m; i++ {
+				parts = append(parts, "p", hx([]byte(fmt.Sprintf("st%02d", i))), hx(g.bytesN(3000+g.intn(6000))))
+			}
+			fmt.Fprintln(w, strings.Join(parts, " "))
+			fmt.Fprintln(w, join("w", "put", hx(g.engKey()), hx(g.bytesN(20))))
+			if g.chance(1, 2) {
+				fmt.Fprintln(w, strings.Join(parts, " "))
+			}
+			fmt.Fprintln(w, "plan")
+			fmt.Fprintln(w, "crashall 1")
+			continue
+		}
 		huge := 0 // one entry larger than the whole 64 KB log buffer: the FIRST record written into a file can be torn
-		if big && g.chance(1, 2) {
+		if big && g.chance(2, 3) {
 			huge = 1
 		}
 		for s := 0; s < steps; s++ {
@@ -342,7 +368,7 @@ func stateDigest(e *engine.EngineFacade) string {
 
 // recoverAndProbe: reopen after the crash, report the state; then write two marker keys, close cleanly, reopen and
 // check that the recovered state plus the markers is what the database holds (writes after a recovery are durable)
-func recoverAndProbe(dir string) (res string) {
+func recoverAndProbe(dir string, bigFirst bool) (res string) {
 	defer func() {
 		if p := recover(); p != nil {
 			res = "panic:" + strings.ReplaceAll(fmt.Sprint(p), " ", "_")
@@ -385,10 +411,16 @@ func recoverAndProbe(dir string) (res string) {
 			}
 		}
 	}
+	// a fragmented entry (> one physical record) written after the recovery must be recoverable too: as the very first
+	// write after the recovery (right behind whatever the recovery left at the end of the log) or after small ones
+	if bigFirst {
+		putQuiet([]byte("\x01post3"), bytes.Repeat([]byte("R"), 40000))
+	}
 	putQuiet([]byte("\x01post1"), []byte("P1"))
 	putQuiet([]byte("\x01post2"), bytes.Repeat([]byte("Q"), 300))
-	// a fragmented entry (> one physical record) written after the recovery must be recoverable too
-	putQuiet([]byte("\x01post3"), bytes.Repeat([]byte("R"), 40000))
+	if !bigFirst {
+		putQuiet([]byte("\x01post3"), bytes.Repeat([]byte("R"), 40000))
+	}
 	snap["\x01post1"] = "P1"
 	snap["\x01post2"] = strings.Repeat("Q", 300)
 	snap["\x01post3"] = strings.Repeat("R", 40000)
@@ -485,7 +517,7 @@ func (c *crashRun) step(ws []string) string {
 						acked++
 					}
 				}
-				results[i] = res{k, fmt.Sprintf("%d:%s:%d:%s", k, c.plan[k-1], acked, recoverAndProbe(dir))}
+				results[i] = res{k, fmt.Sprintf("%d:%s:%d:%s", k, c.plan[k-1], acked, recoverAndProbe(dir, k%2 == 0 || strings.Contains(c.plan[k-1], "buffered") || strings.Contains(c.plan[k-1], "record")))}
 			}(i, k)
 		}
 		wg.Wait()
